@@ -401,7 +401,7 @@ func (p *Prepared) prepareOp(op *Op) (*prepOp, bool) {
 				return nil, false
 			}
 		}
-	case "scribble", "recheck", "mutate", "nop", "reslice", "marshalTarget":
+	case "scribble", "recheck", "mutate", "nop", "reslice", "marshalTarget", "gc":
 	case "fill":
 		// the caller puts a value of its own making into the target it is about to
 		// re-use: times in other zones, empty non-nil slices, spare capacity...
@@ -663,6 +663,12 @@ func (t *taskState) sharedOp(i int, po *prepOp) {
 		t.recheck(i, po, "after later operations")
 	case "marshalTarget":
 		t.marshalTargetOp(i, po)
+	case "gc":
+		// an injected event: a full garbage collection at this point of the history (memory
+		// that only the library still references, or that it hides from the collector, is
+		// reclaimed now and handed out again by the allocations that follow)
+		runtime.GC()
+		t.probe("fault:gc_cycle")
 	case "fill":
 		tgt := reflect.New(po.ti.T)
 		tgt.Elem().Set(po.val)
@@ -736,21 +742,26 @@ func (t *taskState) checkDecoded(i int, po *prepOp, out reflect.Value, err error
 	// the caller keeps the result; it must still be what was returned when the run ends
 	// (somebody else's later call must not be able to change it)
 	if t.x.prop == "C07" && len(t.results) < 64 {
-		t.results = append(t.results, keptResult{i, po, out})
+		t.results = append(t.results, keptResult{i: i, po: po, out: out})
 	}
 }
 
 type keptResult struct {
-	i   int
-	po  *prepOp
-	out reflect.Value
+	i    int
+	po   *prepOp
+	out  reflect.Value
+	snap reflect.Value // if valid: a deep copy taken when Unmarshal returned (else po.expVal is the reference)
 }
 
 // recheckResults: every decoded value a task still holds equals what its call
 // would have returned alone - also after all the other calls have run.
 func (t *taskState) recheckResults() {
 	for _, k := range t.results {
-		if ok, path := world.Equal(k.out.Elem(), k.po.expVal); !ok {
+		ref := k.po.expVal
+		if k.snap.IsValid() {
+			ref = k.snap
+		}
+		if ok, path := world.Equal(k.out.Elem(), ref); !ok {
 			t.fail(k.i, k.po, "mismatch", "a decoded value changed after Unmarshal had returned it (other calls ran in between): at "+path)
 			return
 		}
